@@ -106,7 +106,25 @@ def checkLookup (idx : Nat) (o : SlotObs) (what : String) (items : List (Str × 
     (if (recs.flatMap keysOf).all fun k => items.any fun kv => kv.1 == k then []
      else [s!"step {idx}: {what} lacks a key that the observed records give rise to"])
 
-def checkStep (idx : Nat) (t : SlotTable) (st : Step) (obs : Val) : SlotTable × List String :=
+/-- which `add_record` calls are rejected (C05): the new record matches several records of the converter, or one
+without `merge` — "matches" as `_match_record` says, up to case in case-insensitive mode — judged on the records
+observed before the call.  (`C05_reject` proves the model rejects exactly then.) -/
+def checkAdd (idx : Nat) (fold : Str → Str) (o : SlotObs) (what : String) (r : Record) (cs merge : Bool) (obs : Val) :
+    List String :=
+  match o.recs with
+  | none => []
+  | some recs =>
+    if !Spec.unique recs then [] else
+    let hits := (recs.filter fun x => matchesRec fold cs r x).length
+    let mustReject := hits > 1 || (hits == 1 && !merge)
+    match obs with
+    | .none => if mustReject then [s!"step {idx}: {what} was accepted although the new record matches {hits} existing record(s)"] else []
+    | .err .valueError =>
+      if mustReject then [] else [s!"step {idx}: {what} was rejected although the new record matches {hits} existing record(s)"]
+    | .err e => [s!"step {idx}: {what} raised {e.name}, expected ValueError or success"]
+    | _ => []
+
+def checkStep (fold : Str → Str) (idx : Nat) (t : SlotTable) (st : Step) (obs : Val) : SlotTable × List String :=
   match st with
   | .remapCurie dst src rm =>
     let errs := match obs with
@@ -197,15 +215,20 @@ def checkStep (idx : Nat) (t : SlotTable) (st : Step) (obs : Val) : SlotTable ×
           else (t, [s!"step {idx}: {q.meth} answers differently from the specification over the observed records"])
         else (t, [])
       | _, _ => (t, [])
+  | .addRecord c r cs merge =>
+    (t.put { slot := c }, if Spec.recOK r then checkAdd idx fold (t.get c) "add_record" r cs merge obs else [])
+  | .addPrefix c p u ps us cs merge =>
+    let r : Record := { pfx := p, uri := u, pSyn := sortStrs ps, uSyn := sortStrs us }
+    (t.put { slot := c }, if Spec.recOK r then checkAdd idx fold (t.get c) "add_prefix" r cs merge obs else [])
   | _ =>
     match st.target with
     | some c => (t.put { slot := c }, [])     -- records may have changed: forget them
     | none => (t, [])
 
-def specCheck (steps : List Step) (obs : List Val) : List String :=
+def specCheck (fold : Str → Str) (steps : List Step) (obs : List Val) : List String :=
   let rec go (idx : Nat) (t : SlotTable) : List Step → List Val → List String
     | st :: sts, o :: os =>
-      let (t', errs) := checkStep idx t st o
+      let (t', errs) := checkStep fold idx t st o
       errs ++ go (idx + 1) t' sts os
     | _, _ => []
   go 0 [] steps obs
